@@ -4,27 +4,30 @@ func init() {
 	props["C11"] = &propDef{
 		info: PropInfo{
 			Bounds: []string{
-				"encode / decode kernels: horizontal zoom case-split over 1..31 (quick: 1..8, 16, 24, 31); x, y (resp. the quadkey) symbolic over all bits; loops unwound to the zoom with an unwinding check",
+				"decode kernel: horizontal zoom case-split over 1..31 (quick: 1..8, 12, 16, 24, 31), quadkey symbolic over all bits; encode kernel: zooms 1..16 (quick: 1..8, 10, 12), x and y symbolic over all bits, loops merged under an unwinding check",
 				"entry points: round trip at equal zooms for z in {1,2,3,5,12}, v in {0,3,25}; different output zooms with zoom difference <= 2 per axis on 1..2 IDs, double-report freedom through a symbolic probe cell",
 				"maxHeight == minHeight (plain vertical zoom) in the entry-point harnesses; the height-range (bit) form is C17",
 			},
-			Outside: []string{"lists longer than 2", "zoom differences above 2", "entry points at horizontal zooms above 12 (path count grows as zoom^2)"},
+			Outside: []string{"encode kernel at zooms 17..31 (merged-loop query: solver unknown at 300 s; forked: > 1000 paths per zoom) — the decode kernel and the bijectivity of the reference cover 1..31", "lists longer than 2", "zoom differences above 2", "entry points at horizontal zooms above 12 (path count grows as zoom^2)"},
 		},
 		insts: func(tier string) []*Instance {
 			var is []*Instance
-			zs := []int{1, 2, 3, 4, 5, 6, 7, 8, 16, 24, 31}
+			zs := []int{1, 2, 3, 4, 5, 6, 7, 8, 10, 12}
 			if tier == "thorough" {
 				zs = nil
 				for z := 1; z <= 31; z++ {
 					zs = append(zs, z)
 				}
+			} else {
+				zs = append(zs, 24, 31)
 			}
 			for _, z := range zs {
 				for _, h := range []string{"VerifC11Encode", "VerifC11Decode", "VerifC11Bijective"} {
-					in := mk("transform", h, cs("z", z))
 					if z > 16 && h == "VerifC11Encode" {
-						in.Case["nomerge"] = 1 // beyond 16 levels the merged adder chain is too hard; fork per exit iteration instead
+						continue // encode kernel beyond 16 levels: solver unknown at 300 s (merged) / path explosion (forked); not claimed
 					}
+					in := mk("transform", h, cs("z", z))
+					in.Timeout = 300000
 					in.Unwind = 40
 					in.MaxPaths = 5000
 					in.MaxSeconds = 3000
